@@ -15,7 +15,7 @@ use std::ops::{Range, RangeFrom, RangeInclusive, RangeTo, RangeToInclusive};
 use std::path::{Path, PathBuf};
 use std::sync::{Mutex, RwLock};
 
-pub use crate::memspec::{Declared, Spec, ZstHeap};
+pub use crate::memspec::{Declared, Picky, Spec, ZstHeap};
 
 // ------------------------------------------------------------------------------ random construction
 
@@ -32,6 +32,7 @@ leaf_build!(() => |_| (), u8 => |r| r.next() as u8, u16 => |r| r.next() as u16, 
     std::net::Ipv4Addr => |r| std::net::Ipv4Addr::from(r.next() as u32), std::num::NonZeroU32 => |r| std::num::NonZeroU32::new(1 + r.below(1000) as u32).unwrap(),
     std::ops::RangeFull => |_| (..));
 impl Build for ZstHeap { fn build(_: &mut Rng, _: u32) -> Self { ZstHeap } }
+impl Build for Picky { fn build(r: &mut Rng, _: u32) -> Self { Picky(match r.below(3) { 0 => 0, 1 => 16, _ => r.below(1000) as u32 }) } }
 impl Build for Declared { fn build(r: &mut Rng, _: u32) -> Self { Declared(match r.below(3) { 0 => 0, 1 => 1, _ => r.below(100000) as u32 }) } }
 impl<T> Build for std::marker::PhantomData<T> { fn build(_: &mut Rng, _: u32) -> Self { std::marker::PhantomData } }
 
@@ -161,7 +162,7 @@ pub fn check_type<T: Build + Spec + MemSize + 'static>(seed: u64, rounds: u64, o
         if vs != size_of::<T>() { viol(out, "C08", "value_size", format!("{}: value_size {} != size_of {}", name, vs, size_of::<T>())); }
         if heap != spec { viol(out, "C08", &format!("law:{}", name), format!("{}: heap_size() = {} but the composition law (own buffer by capacity + elements' heap sizes) gives {}", name, heap, spec)); }
         // ---- C09: the allocator's view (not for the synthetic leaves, whose declared sizes are not allocations)
-        if name.contains("ZstHeap") || name.contains("Declared") { out.stats.count("c08_values_with_user_defined_leaves"); drop(x);
+        if name.contains("ZstHeap") || name.contains("Declared") || name.contains("Picky") { out.stats.count("c08_values_with_user_defined_leaves"); drop(x);
             if round % 2 == 0 { let xs: Vec<T> = (0..r.usize_below(9)).map(|_| T::build(&mut r, 1)).collect(); check_bulk::<T>(&name, &xs, &mut r, out); }
             continue; }
         out.stats.eval("C09", mix(&[name.len() as u64, name.bytes().map(|b| b as u64).sum::<u64>(), (live > 0) as u64, x.exact() as u64, (live as u64 % 5)]));
@@ -286,7 +287,7 @@ macro_rules! matrix { ($m:ident, $($a:tt)*) => { $m!($($a)*;
     BinaryHeap<u32>, BinaryHeap<String>, Vec<BinaryHeap<u8>>, BinaryHeap<Vec<u8>>, BinaryHeap<(u8, String)>,
     HashMap<u32, String>, HashMap<String, Vec<u8>>, HashSet<String>, HashSet<u16>, Vec<HashMap<u8, String>>, HashMap<u8, u8>, Option<HashSet<String>>, (HashMap<u16, String>, String),
     &'static String, &'static str, Vec<&'static str>, (&'static [u8], String), Vec<&'static String>,
-    ZstHeap, Declared, Vec<ZstHeap>, Vec<Declared>, Option<Vec<ZstHeap>>, Box<Vec<ZstHeap>>, Vec<Vec<ZstHeap>>, [ZstHeap; 3], (ZstHeap, String), HashMap<u8, ZstHeap>, BinaryHeap<u8>, Box<[ZstHeap]>, Vec<(ZstHeap, u8)>, Vec<[ZstHeap; 3]>,
+    ZstHeap, Declared, Picky, Vec<Picky>, Vec<[Picky; 3]>, [[Picky; 2]; 2], Box<[[Picky; 3]]>, BinaryHeap<[u8; 3]>, Vec<ZstHeap>, Vec<Declared>, Option<Vec<ZstHeap>>, Box<Vec<ZstHeap>>, Vec<Vec<ZstHeap>>, [ZstHeap; 3], (ZstHeap, String), HashMap<u8, ZstHeap>, BinaryHeap<u8>, Box<[ZstHeap]>, Vec<(ZstHeap, u8)>, Vec<[ZstHeap; 3]>,
     Vec<Box<[String]>>, Vec<Box<Vec<String>>>, Vec<Box<str>>, Vec<Box<Path>>, Vec<Box<CStr>>, Box<[Box<[Vec<u8>]>]>, Option<(PathBuf, OsString, CString)>
 ); } }
 
@@ -303,7 +304,7 @@ pub fn run_memsize(seed: u64, rounds: u64, shard: Option<(u64, u64)>) -> MsOut {
     let mut out = MsOut { stats: Stats::default(), viols: Vec::new(), per_type: Vec::new() };
     matrix!(run_types, seed, rounds, &mut out, shard);
     let rounds3 = (rounds / 3).max(20);
-    cross!(run_types, [seed, rounds3, &mut out, shard], u8, String, Box<u32>, Vec<u8>, (String, u8), [String; 0], Box<str>, Option<Box<u16>>, [Box<u32>; 3], Box<[u16]>, ZstHeap, Declared);
+    cross!(run_types, [seed, rounds3, &mut out, shard], u8, String, Box<u32>, Vec<u8>, (String, u8), [String; 0], Box<str>, Option<Box<u16>>, [Box<u32>; 3], Box<[u16]>, ZstHeap, Declared, Picky);
     if shard.map(|(s, _)| s == 0).unwrap_or(true) { check_unsized(seed, rounds, &mut out); }
     if shard.map(|(s, n)| s == 1 % n).unwrap_or(true) { check_locked(12, &mut out); }
     out.stats.events = out.stats.evals.values().sum();
